@@ -114,7 +114,18 @@ AnswerPairing(r) ==
 \* milliseconds of virtual time
 AllowedSendExc == {"none", "CommunicationError", "CancelledError"}
 
-Recovery(r) ==
+\* witness for the known finding: a caller was cancelled while its command was in flight (frame written, results
+\* incomplete) on a driver whose gateway protocol carries no command identifier -- the orphaned confirmation / answer is
+\* then taken by the next command
+NoCommandIds(d) == d \in {"hasseb", "luba", "sci"}
+Orphan(r) ==
+    IF NoCommandIds(r.driver) /\ \E j \in 1..Len(r.callers) :
+          /\ r.callers[j].cancelled = 1 /\ r.callers[j].exc = "CancelledError"
+          /\ Len(r.callers[j].results) < Len(r.callers[j].unit)
+          /\ Positions(r.wire, r.callers[j].name) # <<>>
+    THEN ":after-a-send-cancelled-in-flight" ELSE ""
+
+RecoveryC(r, late) ==      \* late: leave the clauses the known finding explains for a second pass
     LET S == [k \in 1..Len(r.status) |-> r.status[k][2]]
         n == Len(S)
         outage == {k \in 1..(Len(r.opens) - 1) : r.opens[k][2] = 0}       \* a failed attempt followed by another attempt
@@ -138,12 +149,12 @@ Recovery(r) ==
        ELSE IF \E k \in 1..Len(r.callers) : r.callers[k].exc = "CancelledError" /\ r.callers[k].cancelled = 0
                                              /\ ~(r.params.expect_failed = 1 /\ r.callers[k].after_loss = 1)
             THEN Fail("spurious-cancellation", 0)
-       ELSE IF badpair # {} THEN LET k == CHOOSE x \in badpair : TRUE IN
-            Fail(CallerPairing(r.driver, r.wire, r.callers[k]) \o ":" \o r.callers[k].name, k)
+       ELSE IF badpair # {} /\ ~(late /\ Orphan(r) # "") THEN LET k == CHOOSE x \in badpair : TRUE IN
+            Fail(CallerPairing(r.driver, r.wire, r.callers[k]) \o ":" \o r.callers[k].name \o Orphan(r), k)
        ELSE IF slow # {} THEN Fail("timeout-later-than-documented", CHOOSE k \in slow : TRUE)
        ELSE IF r.lock_free # 1 THEN Fail("transaction-lock-still-held", 0)
        ELSE IF r.out.tail.exc # "none" THEN Fail("further-sends-failed:" \o r.out.tail.exc, r.out.tail.n)
-       ELSE IF r.out.tail.wrong # 0 THEN Fail("further-sends-got-wrong-answers", r.out.tail.wrong)
+       ELSE IF r.out.tail.wrong # 0 /\ ~(late /\ Orphan(r) # "") THEN Fail("further-sends-got-wrong-answers" \o Orphan(r), r.out.tail.wrong)
        ELSE IF badgap # {} THEN Fail("reconnect-attempts-not-at-configured-interval", CHOOSE k \in badgap : TRUE)
        ELSE IF ~serial /\ r.params.expect_failed = 1 /\ (n = 0 \/ S[n] # "failed") THEN Fail("failed-not-reported-after-reconnect-limit", n)
        ELSE IF ~serial /\ r.params.expect_failed = 0 /\ \E k \in 1..n : S[k] = "failed" THEN Fail("failed-reported-without-reaching-limit", 0)
@@ -158,6 +169,9 @@ Recovery(r) ==
        ELSE IF r.hs.applies = 1 /\ r.hs.inits # <<0, 2>> THEN Fail("handshake-not-repeated-after-reconnection", Len(r.hs.inits))
        ELSE IF r.hs.applies = 1 /\ (r.hs.fw # r.hs.want_fw \/ r.hs.serial # r.hs.want_serial) THEN Fail("handshake-result-stale-or-wrong", 0)
        ELSE Pass
+
+\* every other clause is evaluated before the ones the known finding explains, so that it cannot mask anything
+Recovery(r) == LET v == RecoveryC(r, TRUE) IN IF ~v.ok THEN v ELSE RecoveryC(r, FALSE)
 
 Verdict(r) == CASE Mode = "c15" -> TxnAtomic(r) [] Mode = "c16" -> AnswerPairing(r) [] Mode = "c17" -> Recovery(r)
 
